@@ -10,7 +10,7 @@ RULE = ("programs generated from the full header/body model (lets of any sign/ma
 ASSUMPTIONS = ["reference meaning (vf/meaning.py) reads IR objects through public attributes only",
                "autoload_pulses=False: pulse imports are kept as statements, not loaded"]
 TIERS = {"quick": {"shards": 8, "budget_s": 90}, "thorough": {"shards": 16, "budget_s": 300}}
-REQUIRE = {"shards-whose-first-program-writes-integral-floats": 2, "derived-circuits-judged": 300, "route:builder": 500, "route:text": 50, "route:build": 50, "route:build-lists": 50, "lit:float-exp": 5, "node:subcircuit_block": 20, "map:6": 20, "node:macro": 20}
+REQUIRE = {"route:keyword-calls": 2000, "shards-whose-first-program-writes-integral-floats": 2, "derived-circuits-judged": 300, "route:builder": 500, "route:text": 50, "route:build": 50, "route:build-lists": 50, "lit:float-exp": 5, "node:subcircuit_block": 20, "map:6": 20, "node:macro": 20}
 
 
 def build_circuit(prog, route, bseed=0):
@@ -19,6 +19,12 @@ def build_circuit(prog, route, bseed=0):
     if route == "builder":
         # the object-oriented CircuitBuilder API used the documented way (objects built at once or unevaluated, numpy numbers)
         return builder_route.via_builder(prog, bseed)[0]
+    if route == "keyword-calls":
+        # every statement re-made by calling its definition with keyword arguments in another order (definition(**kwargs)
+        # is documented to give the statement the positional call gives)
+        from .. import apiroute
+
+        return apiroute.rebuild_with_keyword_calls(lib.parse(sx.to_text(prog)), bseed)[0]
     if route == "derived":
         return build_derived(prog, bseed)[0]
     if route == "build-lists":
@@ -234,6 +240,8 @@ def shard(ctx):
         if any("e" in repr(a) for a in lits):
             rec.count("lit:float-exp")
         process(ctx, case, seen)
+        if i % 8 == 3:
+            process(ctx, {"prog": prog, "route": "keyword-calls", "bseed": rng.randrange(1 << 30)}, seen)
         if i % 6 == 0 and any(x[0] == "macro" for x in prog[1:]):
             # the same program once more: parsed, written out, and a second circuit derived from its parts
             process(ctx, {"prog": prog, "route": "derived", "bseed": rng.randrange(1 << 30)}, seen)
